@@ -84,6 +84,27 @@ def run(eng, pid, tier, repo, scratch, seed):
                 res['failures'].append({'function': 'key::list::KeyExpList::clear_expired', 'mode': 'exec', 'kind': 'bounded contract check failed',
                                         'site_text': j.get('counterexample'), 'site_origin': None, 'rendered': p.stdout[-1500:],
                                         'concrete_input': j.get('counterexample')})
+        elif job['name'] == 'explore-panic':
+            seeds, steps = (job['thorough'] if tier == 'thorough' else job['quick'])
+            t0 = time.time()
+            p = drv(root, ['explore-panic', 'all', str(seeds), str(steps)])
+            dt = time.time() - t0
+            res['cmds'].append('$SCRATCH/replay/drv/target/debug/replay explore-panic all %d %d' % (seeds, steps))
+            try:
+                j = json.loads(p.stdout.strip().split('\n')[-1])
+            except Exception:
+                res['inconclusive'].append({'why': 'replay-driver-output', 'detail': (p.stdout + p.stderr)[-800:]})
+                continue
+            res['bounded_components'].append({
+                'name': 'panic injection on all seven collections (cross-check of the unwinding assumption behind the call-site assertions)',
+                'engine': 'replay driver: real code under catch_unwind against a twin that never panicked',
+                'bound': '%d pseudo-random in-contract histories of %d operations per collection; within each history a panic is injected at EVERY callback index of EVERY operation (ordering, comparator closure, key accessor, expiration accessor)' % (seeds, steps),
+                'cases': j.get('injections'), 'nontrivial': j.get('injections'), 'ok': j.get('ok'), 'wall_s': round(dt, 1), 'label': 'bounded (sampled histories) - not counted as proved'})
+            if not j.get('ok'):
+                res['failures'].append({'function': 'panic injection', 'mode': 'exec', 'kind': 'bounded contract check failed',
+                                        'site_text': j.get('counterexample'), 'site_origin': None, 'rendered': p.stdout[-1500:],
+                                        'concrete_input': j.get('counterexample'),
+                                        'rerun': 'replay explore-panic all %d %d' % (seeds, steps)})
         elif job['name'] == 'finding':
             for fid in job['ids']:
                 p = drv(root, ['finding', fid])
@@ -125,6 +146,17 @@ def search(pid, records, repo, scratch, seeds=4000, steps=80, tags=None):
     tags_wanted = tags
     tried = []
     other = []
+    if 'C18' in (tags or [pid]):
+        try:
+            p = drv(root, ['explore-panic', 'all', '600', '16'], timeout=600)
+            j = json.loads(p.stdout.strip().split('\n')[-1])
+            tried.append({'collection': 'all (panic injection)', 'ok': j.get('ok'), 'histories': j.get('histories'), 'injections': j.get('injections')})
+            if not j.get('ok'):
+                return {'found': True, 'input': j.get('counterexample', ''), 'tags': ['C18'], 'collection': 'all',
+                        'how': 'replay driver: a panic injected at every callback index of every operation of pseudo-random histories, real code under catch_unwind',
+                        'rerun': 'replay explore-panic all 600 16', 'tried': tried}
+        except Exception as ex:
+            tried.append({'collection': 'all (panic injection)', 'error': repr(ex)[:200]})
     for col in collections_of(records):
         try:
             p = drv(root, ['explore', col, str(seeds), str(steps)], timeout=600)
